@@ -50,7 +50,7 @@ Inductive pkind :=
 | PK_ListSyntax | PK_InvalidIndex | PK_AssignTarget | PK_AssignOp | PK_AssignValue
 | PK_InvalidCall | PK_InvalidPipe | PK_InvalidIn | PK_ExpectedIn | PK_InvalidNotIn
 | PK_RangeBrace | PK_InvalidRange | PK_SetSyntax | PK_InvalidAttr | PK_ExpectedIdentAfter
-| PK_SendChannel | PK_SendValue | PK_InvalidReceive.
+| PK_SendChannel | PK_SendValue | PK_InvalidReceive | PK_InvalidReturn | PK_InvalidCase.
 
 Inductive perr := PSyntax (e : lexerr) | PParse (k : pkind).
 Record perror := { pe_kind : perr; pe_line : nat; pe_col : nat }.
@@ -343,17 +343,17 @@ Section Step.
         end
     end.
 
-  (* parseConst returns *ast.Const: nil results are typed, but every nil path has set the error *)
+  (* parseConst / parseReturn return typed pointers; parseStatement keeps only non-nil results *)
   Definition parse_const : P sres :=
     do ok <- expect_peek IDENT;
-    if negb ok then ret STypedNil else
+    if negb ok then ret SNone else
     do t <- cur_tok;
     do ok2 <- expect_peek Lexer.ASSIGN;
-    if negb ok2 then ret STypedNil else
+    if negb ok2 then ret SNone else
     do _ <- next_token;
     do v <- parse_assignment_value;
     match v with
-    | None => ret STypedNil
+    | None => ret SNone
     | Some value => ret (SNode (NConst (t_lit t) value))
     end.
 
@@ -365,7 +365,7 @@ Section Step.
         do _ <- next_token;
         do v <- parse_expression LOWEST;
         match v with
-        | None => ret STypedNil
+        | None => do t <- cur_tok; tok_err t PK_InvalidReturn ;; ret SNone
         | Some value => ret (SNode (NReturn (Some value)))
         end
     end.
@@ -853,15 +853,19 @@ Section Step.
           if negb ok then ret None else case_stmts f acc'
     end.
 
-  Fixpoint case_exprs (fuel : nat) (acc : list node) : P (list node) :=
+  (* the comma-separated case expressions: stops at the first one that fails to parse *)
+  Fixpoint case_exprs (fuel : nat) (acc : list node) : P (option (list node)) :=
     match fuel with
-    | O => ret acc
+    | O => ret (Some acc)
     | S f =>
         do pc <- peek_is COMMA;
-        if negb pc then ret acc else
+        if negb pc then ret (Some acc) else
         do _ <- next_token; do _ <- next_token;
         do e <- parse_expression LOWEST;
-        case_exprs f (acc ++ [opt_or_nil e])
+        match e with
+        | None => do t <- cur_tok; tok_err t PK_InvalidCase ;; ret None
+        | Some x => case_exprs f (acc ++ [x])
+        end
     end.
 
   Fixpoint switch_cases (fuel : nat) (value : node) (acc : list scase) (ndefault : nat) : P (option node) :=
@@ -882,9 +886,13 @@ Section Step.
                    else if isc then
                      do _ <- next_token;
                      do e1 <- parse_expression LOWEST;
-                     do fu <- tfuel;
-                     do es <- case_exprs fu [opt_or_nil e1];
-                     ret (Some (false, es))
+                     match e1 with
+                     | None => do t <- cur_tok; tok_err t PK_InvalidCase ;; ret None
+                     | Some x1 =>
+                         do fu <- tfuel;
+                         do es <- case_exprs fu [x1];
+                         match es with Some l => ret (Some (false, l)) | None => ret None end
+                     end
                    else (tok_err ct PK_ExpectedCase ;; ret None));
         match hdr with
         | None => ret None
